@@ -19,7 +19,7 @@ func TestC09_Replicas(t *testing.T) {
 	rec.AddRule("rapid state machine over shuttermint call histories (apphist generator: 1-5 genesis keypers, all thresholds, votes on pooled candidate configurations, DKG result votes, check-ins, block-seen, DKG messages, replays, garbage, CheckTx interleaved) executed on 4 replicas; non-trivial = history in which some tally had two values at or over the threshold when consulted (order-sensitive decision exercised) or a configuration was accepted after a vote split; distinct by canonical history string")
 	rec.Assume("Go's per-range map iteration randomisation samples iteration orders; orders are not enumerated")
 	steps := 40
-	runRapid(t, N(1200, 30000), func(rt *rapid.T) {
+	runRapid(t, N(1200, 200000), func(rt *rapid.T) {
 		g := genGenesis(rt)
 		c := NewChain(g, 4, func(sig, f string, a ...any) { fatalf(rt, sig, f, a...) })
 		c.CheckReplicas = true
@@ -47,4 +47,28 @@ func TestC09_Replicas(t *testing.T) {
 		rec.LabelN("abci-calls", c.Calls)
 	})
 	_ = fmt.Sprint
+}
+
+// TestC09_LongHistories runs few but long histories in which one genesis keyper sends most of the
+// transactions, so that whatever the application keeps per sender or per chain lifetime (remembered
+// nonces, vote maps, the DKG map) grows far beyond what a 40-step history reaches, and earlier
+// transactions are re-delivered late.
+func TestC09_LongHistories(t *testing.T) {
+	rec := recorder("C09")
+	rec.AddRule("long histories: 3 replicas, 5000-7500 steps (thorough 8000-12000), one hot sender with 70% of the transactions, replays of any earlier transaction; same oracle after every call")
+	steps := N(5000, 8000*nshards)
+	runRapid(t, N(3, 96), func(rt *rapid.T) {
+		g := genGenesis(rt)
+		c := NewChain(g, 3, func(sig, f string, a ...any) { fatalf(rt, sig, f, a...) })
+		c.CheckReplicas = true
+		c.PoolKeys = 3
+		c.HasHot, c.HotSender = true, g.Keypers[rapid.IntRange(0, len(g.Keypers)-1).Draw(rt, "hotSender")]
+		n := rapid.IntRange(steps, steps+steps/2).Draw(rt, "len")
+		for i := 0; i < n; i++ {
+			c.Step(rt)
+		}
+		c.EndBlock()
+		rec.Case(fmt.Sprintf("long:%d:%s", n, c.DescString()), len(c.Sent) > 1024, "long-history")
+		rec.LabelN("abci-calls", c.Calls)
+	})
 }
